@@ -1,7 +1,7 @@
 (* C09 — compiler correctness: the machine running the model-compiled code
    simulates the reference evaluator (forward simulation, Ok outcomes). *)
 From Coq Require Import String List Bool Arith Lia.
-From NV Require Import VM.Value VM.Ast VM.Bytecode VM.Compile VM.Machine VM.RefSem.
+From NV Require Import VM.Value VM.Ast VM.Bytecode VM.Compile VM.Machine VM.RefSem VM.SortLemmas.
 Import ListNotations.
 Open Scope list_scope.
 
@@ -1028,7 +1028,235 @@ Proof.
     rewrite rev_involutive, sapp_nil_r. reflexivity.
 Qed.
 
+<<<<<<< HEAD
 Hypothesis Hlits : lits = (false, false).
+=======
+(* ---- struct literals: fields sorted by definition index, emitted in reverse *)
+Lemma evals_fields_names : forall (ev : expr Q -> res (value Q)) fields fvs,
+  evals (fun nf : string * expr Q => bind (ev (snd nf)) (fun v => Ok (fst nf, v))) fields = Ok fvs ->
+  map fst fvs = map fst fields.
+Proof.
+  induction fields as [|[x e] fields IH]; simpl; intros fvs H.
+  - inversion H. reflexivity.
+  - apply bind_ok in H. destruct H as (p & Hp & H). apply bind_ok in H. destruct H as (r & Hr & E).
+    apply bind_ok in Hp. destruct Hp as (v & _ & Hp). inversion Hp; subst p. inversion E; subst fvs.
+    simpl. f_equal. apply IH. exact Hr.
+Qed.
+
+Lemma assoc_In_fst {A} : forall x (l : list (string * A)) a, assoc x l = Some a -> In x (map fst l).
+Proof.
+  induction l as [|[y b] l IH]; simpl; intros a H; [discriminate|].
+  destruct (String.eqb y x) eqn:E; [left; apply String.eqb_eq; exact E | right; eapply IH; exact H].
+Qed.
+
+Lemma collect_incl {A} : forall names (env : list (string * A)) vals,
+  collect names env = Some vals -> incl names (map fst env).
+Proof.
+  induction names as [|f names IH]; simpl; intros env vals H; [intros x []|].
+  destruct (assoc f env) as [a|] eqn:Ea; [|discriminate].
+  destruct (collect names env) as [vs|] eqn:Ec; [|discriminate].
+  intros x [Hx|Hx]; [subst; eapply assoc_In_fst; exact Ea | eapply IH; eassumption].
+Qed.
+
+Lemma mem_In : forall x l, mem x l = true <-> In x l.
+Proof.
+  intros. unfold mem. rewrite existsb_exists. split.
+  - intros (y & Hy & E). apply String.eqb_eq in E. subst. exact Hy.
+  - intro H. exists x. split; [exact H | apply String.eqb_refl].
+Qed.
+
+Lemma nodupb_NoDup : forall l, nodupb l = true -> NoDup l.
+Proof.
+  induction l as [|x l IH]; simpl; intro H; [constructor|].
+  apply andb_prop in H. destruct H as [H1 H2]. constructor; [|apply IH; exact H2].
+  intro Hin. apply mem_In in Hin. rewrite Hin in H1. discriminate.
+Qed.
+
+Lemma In_index_of : forall x l, In x l -> exists i, index_of x l = Some i.
+Proof.
+  induction l as [|y l IH]; simpl; intros H; [contradiction|].
+  destruct (String.eqb y x) eqn:E; [eauto|].
+  destruct H as [H|H]; [subst; rewrite String.eqb_refl in E; discriminate|].
+  destruct (IH H) as [i Hi]. rewrite Hi. eauto.
+Qed.
+
+Lemma assoc_NoDup_In {A} : forall (l : list (string * A)) x a,
+  NoDup (map fst l) -> In (x, a) l -> assoc x l = Some a.
+Proof.
+  induction l as [|[y b] l IH]; simpl; intros x a Hnd Hin; [contradiction|].
+  apply NoDup_cons_iff in Hnd. destruct Hnd as [Hni Hnd].
+  destruct Hin as [Hin|Hin].
+  - inversion Hin; subst. rewrite String.eqb_refl. reflexivity.
+  - destruct (String.eqb y x) eqn:E.
+    + apply String.eqb_eq in E. subst. exfalso. apply Hni. change x with (fst (x, a)). apply in_map. exact Hin.
+    + apply IH; assumption.
+Qed.
+
+Lemma assoc_app_l {A} : forall x (l l' : list (string * A)) a, assoc x l = Some a -> assoc x (l ++ l') = Some a.
+Proof.
+  induction l as [|[y b] l IH]; simpl; intros l' a H; [discriminate|].
+  destruct (String.eqb y x); [exact H | apply IH; exact H].
+Qed.
+
+(* one record per field: definition index, sub-compiler, (name, value) *)
+Definition zrec : Type := (nat * ((nat -> nat -> @frag Q) * (string * value Q)))%type.
+Definition zname (z : zrec) : string := fst (snd (snd z)).
+Definition zval (z : zrec) : value Q := snd (snd (snd z)).
+
+Lemma struct_zs : forall n, expr_ok n -> forall vg vn vf L ce fi fp frs sfields,
+  cenv_rel ce vg vn vf ->
+  forall fields fvs,
+    evals (fun nf : string * expr Q =>
+             bind (eval O stale lits n W vg vn vf L (snd nf)) (fun v => Ok (fst nf, v))) fields = Ok fvs ->
+    (forall x, In x (map fst fields) -> In x sfields) ->
+    exists zs : list zrec,
+      keyed sfields (map (fun nf : string * expr Q => (fst nf, fun nk na => cexpr ce (snd nf) nk na)) fields)
+      = Some (map (fun z : zrec => (fst z, fst (snd z))) zs) /\
+      Forall (fun z : zrec => comp_ok ce L fi fp frs (fst (snd z)) [zval z] /\
+                              index_of (zname z) sfields = Some (fst z)) zs /\
+      map (fun z : zrec => snd (snd z)) zs = fvs.
+Proof.
+  intros n IH vg vn vf L ce fi fp frs sfields Hrel.
+  induction fields as [|[x e] fields IHf]; simpl; intros fvs H Hin.
+  - inversion H. exists []. repeat split. constructor.
+  - apply bind_ok in H. destruct H as (p & Hp & H). apply bind_ok in H. destruct H as (r & Hr & E).
+    apply bind_ok in Hp. destruct Hp as (v & Hv & Hp). inversion Hp; subst p. inversion E; subst fvs.
+    destruct (In_index_of x sfields (Hin x (or_introl eq_refl))) as [k Hk].
+    destruct (IHf r Hr (fun y Hy => Hin y (or_intror Hy))) as (zs & K & F & M).
+    exists ((k, ((fun nk na => cexpr ce e nk na), (x, v))) :: zs). repeat split.
+    + rewrite Hk, K. reflexivity.
+    + constructor; [|exact F]. split; [|exact Hk].
+      unfold zval. simpl. eapply IH; eassumption.
+    + simpl. rewrite M. reflexivity.
+Qed.
+
+Lemma keys_NoDup : forall sfields (zs : list zrec),
+  Forall (fun z => index_of (zname z) sfields = Some (fst z)) zs ->
+  NoDup (map zname zs) -> NoDup (map fst zs).
+Proof.
+  induction zs as [|z zs IH]; simpl; intros HF Hnd; [constructor|].
+  inversion HF as [|? ? Hz HF']; subst. apply NoDup_cons_iff in Hnd. destruct Hnd as [Hni Hnd].
+  constructor; [|apply IH; assumption].
+  intro Hin. apply in_map_iff in Hin. destruct Hin as (z' & Ez & Hz').
+  apply Hni. rewrite Forall_forall in HF'. pose proof (HF' z' Hz') as H'. rewrite Ez in H'.
+  rewrite (index_of_inj _ _ _ _ Hz H'). apply in_map. exact Hz'.
+Qed.
+
+Lemma names_by_keys : forall (l : list string) (sz : list zrec) pre,
+  Forall (fun z => nth_error (pre ++ l) (fst z) = Some (zname z)) sz ->
+  map fst sz = seq (length pre) (length l) ->
+  map zname sz = l.
+Proof.
+  induction l as [|x l IH]; intros sz pre HF Hk.
+  - simpl in Hk. destruct sz; [reflexivity | discriminate].
+  - simpl in Hk. destruct sz as [|z sz]; [discriminate|]. simpl in Hk. inversion Hk as [[Ez Er]].
+    inversion HF as [|? ? Hz HF']; subst. simpl. f_equal.
+    + rewrite Ez in Hz. rewrite nth_error_app2 in Hz by lia. rewrite Nat.sub_diag in Hz. simpl in Hz. congruence.
+    + apply (IH sz (pre ++ [x])).
+      * rewrite <- app_assoc. exact HF'.
+      * rewrite app_length. simpl. rewrite Nat.add_1_r. rewrite Ez in Er. exact Er.
+Qed.
+
+Lemma collect_by_assoc : forall (fvs : list (string * value Q)) (sz : list zrec),
+  Forall (fun z => assoc (zname z) fvs = Some (zval z)) sz ->
+  collect (map zname sz) fvs = Some (map zval sz).
+Proof.
+  induction sz as [|z sz IH]; simpl; intro HF; [reflexivity|].
+  inversion HF as [|? ? Hz HF']; subst. rewrite Hz, (IH HF'). reflexivity.
+Qed.
+
+Lemma Forall2_of_Forall : forall ce L fi fp frs (sz : list zrec),
+  Forall (fun z : zrec => comp_ok ce L fi fp frs (fst (snd z)) [zval z]) sz ->
+  Forall2 (comp_ok ce L fi fp frs) (map (fun z : zrec => fst (snd z)) sz) (map (fun z => [zval z]) sz).
+Proof. induction 1; simpl; constructor; assumption. Qed.
+
+Lemma concat_singletons {A B} (g : A -> B) : forall l, concat (map (fun z => [g z]) l) = map g l.
+Proof. induction l; simpl; [reflexivity | f_equal; assumption]. Qed.
+
+Lemma ok_struct : forall n, expr_ok n -> forall vg vn vf L sname sfields fields v ce fi fp frs,
+  snd lits = true ->
+  eval O stale lits (S n) W vg vn vf L (EStruct sname sfields fields) = Ok v ->
+  cenv_rel ce vg vn vf ->
+  comp_ok ce L fi fp frs (cexpr ce (EStruct sname sfields fields)) [v].
+Proof.
+  intros n IH vg vn vf L sname sfields fields v ce fi fp frs Hlit H Hrel. simpl in H.
+  rewrite Hlit in H. simpl in H.
+  destruct (assoc sname (w_structs W)) as [declared|] eqn:Ea; [|discriminate].
+  destruct (list_eqb String.eqb declared sfields) eqn:Ed; [|discriminate].
+  destruct (nodupb sfields) eqn:End; [|discriminate].
+  destruct (Nat.eqb (length fields) (length sfields)) eqn:El; [|discriminate]. simpl in H.
+  apply list_eqb_string_eq in Ed. subst declared. apply nodupb_NoDup in End. apply Nat.eqb_eq in El.
+  apply bind_ok in H. destruct H as (fvs & Hfvs & H).
+  destruct (collect sfields fvs) as [vals|] eqn:Ec; [|discriminate]. inversion H; subst v; clear H.
+  pose proof (evals_fields_names _ _ _ Hfvs) as Hnames.
+  pose proof (collect_incl _ _ _ Ec) as Hincl. rewrite Hnames in Hincl.
+  assert (Hlen : length (map fst fields) <= length sfields) by (rewrite map_length; lia).
+  pose proof (NoDup_incl_NoDup End Hlen Hincl) as Hnd.
+  pose proof (NoDup_length_incl End Hlen Hincl) as Hincl'.
+  destruct (struct_zs n IH vg vn vf L ce fi fp frs sfields Hrel fields fvs Hfvs Hincl') as (zs & K & F & M).
+  (* facts about the sorted records *)
+  set (sz := sort_by zs).
+  assert (Fsz : Forall (fun z : zrec => comp_ok ce L fi fp frs (fst (snd z)) [zval z] /\
+                                        index_of (zname z) sfields = Some (fst z)) sz).
+  { apply Forall_forall. intros z Hz. rewrite Forall_forall in F. apply F. apply (proj1 (sort_by_In zs z)). exact Hz. }
+  assert (Lzs : length zs = length sfields).
+  { rewrite <- El. rewrite <- (map_length (fun z : zrec => snd (snd z)) zs), M.
+    rewrite <- (map_length fst fvs), Hnames, map_length. reflexivity. }
+  assert (Lsz : length sz = length sfields) by (unfold sz; rewrite sort_by_length; exact Lzs).
+  assert (Nzs : NoDup (map zname zs)).
+  { assert (E : map zname zs = map fst fvs) by (rewrite <- M, map_map; reflexivity).
+    rewrite E, Hnames. exact Hnd. }
+  assert (Kzs : NoDup (map fst zs)).
+  { apply (keys_NoDup sfields); [|exact Nzs]. eapply Forall_impl; [|exact F]. intros z [_ Hz]. exact Hz. }
+  assert (Ksz : map fst sz = seq 0 (length sfields)).
+  { rewrite <- Lsz. apply ssorted_seq; [apply sort_ssorted; exact Kzs|].
+    intros z Hz. rewrite Forall_forall in Fsz. destruct (Fsz z Hz) as [_ Hi].
+    apply index_of_lt in Hi. rewrite Lsz. lia. }
+  assert (Nsz : map zname sz = sfields).
+  { apply (names_by_keys sfields sz []); [|exact Ksz].
+    eapply Forall_impl; [|exact Fsz]. intros z [_ Hz]. simpl. apply index_of_nth. exact Hz. }
+  assert (Vsz : map zval sz = vals).
+  { assert (Hc : collect (map zname sz) fvs = Some (map zval sz)).
+    { apply collect_by_assoc. apply Forall_forall. intros z Hz.
+      apply assoc_NoDup_In; [rewrite Hnames; exact Hnd|].
+      apply (proj1 (sort_by_In zs z)) in Hz. rewrite <- M.
+      change (zname z, zval z) with (snd (snd z)) || idtac.
+      replace (zname z, zval z) with (snd (snd z)) by (unfold zname, zval; destruct z as [? [? [? ?]]]; reflexivity).
+      apply (in_map (fun z : zrec => snd (snd z))). exact Hz. }
+    rewrite Nsz, Ec in Hc. inversion Hc. reflexivity. }
+  (* the compiled code *)
+  assert (Ks : sort_by (map (fun z : zrec => (fst z, fst (snd z))) zs)
+               = map (fun z : zrec => (fst z, fst (snd z))) sz).
+  { unfold sz. symmetry. apply (sort_by_map (fun y : (nat -> nat -> @frag Q) * (string * value Q) => fst y)). }
+  assert (Hcs : comp_ok ce L fi fp frs
+                  (cseq (rev (map snd (sort_by (map (fun z : zrec => (fst z, fst (snd z))) zs))))) (map zval sz)).
+  { rewrite Ks, map_map. simpl.
+    rewrite <- (concat_singletons zval sz). rewrite <- (rev_involutive (map (fun z => [zval z]) sz)).
+    apply cseq_ok. apply Forall2_rev.
+    apply Forall2_of_Forall. eapply Forall_impl; [|exact Fsz]. intros z [Hz _]. exact Hz. }
+  rewrite Vsz in Hcs.
+  destruct Hrel as (_ & _ & _ & _ & _ & [rest6 H6] & [rest7 H7]).
+  pose proof (index_of_assoc_fst sname (c_structs ce)) as Hix.
+  destruct (index_of sname (map fst (c_structs ce))) as [sidx|] eqn:Ei.
+  - destruct (assoc sname (c_structs ce)) as [fs'|] eqn:Ea'; [|contradiction].
+    assert (fs' = sfields).
+    { pose proof (assoc_app_l _ _ rest7 _ Ea') as E. rewrite <- H7, Ea in E. congruence. }
+    subst fs'.
+    apply (ok_emit ce L fi fp frs _ _ vals [VStruct sname sfields vals]
+             (fun _ _ => chk16 (length fields) (IBuildStruct sidx (length fields))) Hcs).
+    + intros. simpl. rewrite K. rewrite Ei. simpl. split; reflexivity.
+    + intros nk na ip stk s Hm Hs Hl. apply chk16_ok in Hm. destruct Hm as [Hm _]. rewrite Hm.
+      simpl. rewrite H6. rewrite (nth_error_app_l _ _ _ _ Hix).
+      assert (Lv : length vals = length sfields).
+      { rewrite <- Lsz. rewrite <- Vsz. apply map_length. }
+      rewrite El, <- Lv. rewrite app_length.
+      destruct (Nat.leb (length vals) (length vals + length stk)) eqn:E; [|apply Nat.leb_gt in E; lia].
+      rewrite firstn_length_app, skipn_length_app. reflexivity.
+  - apply (ok_emit ce L fi fp frs _ _ vals [VStruct sname sfields vals] (fun _ _ => ICompilePanic) Hcs).
+    + intros. simpl. rewrite K. rewrite Ei. simpl. split; reflexivity.
+    + intros nk na ip stk s Hm. discriminate.
+Qed.
+>>>>>>> vm
 
 Theorem expr_correct : RelW -> forall n, expr_ok n.
 Proof.
@@ -1037,14 +1265,14 @@ Proof.
   - destruct e.
     + simpl in H. inversion H. apply (ok_const ce L fi fp frs (CScalar q)).
     + simpl in H. inversion H. apply (ok_const ce L fi fp frs (CBool b)).
-    + simpl in H. rewrite Hlits in H. discriminate.
+    + destruct (fst lits) eqn:El; [eapply ok_string; eassumption | simpl in H; rewrite El in H; discriminate].
     + simpl in H. eapply ok_ident; eassumption.
     + eapply ok_un; eassumption.
     + eapply ok_bin; eassumption.
     + eapply ok_call; eassumption.
     + eapply ok_callable; eassumption.
     + eapply ok_cond; eassumption.
-    + simpl in H. rewrite Hlits in H. discriminate.
+    + destruct (snd lits) eqn:El; [eapply ok_struct; eassumption | simpl in H; rewrite El in H; simpl in H; discriminate].
     + eapply ok_field; eassumption.
     + eapply ok_list; eassumption.
 Qed.
@@ -1110,7 +1338,7 @@ Proof.
   apply at_code_app in Ha. destruct Ha as [Ha Har].
   assert (Hs : stack_ok W ce [] 0 (rev (map snd (w_globals W)))).
   { split; [exists []; reflexivity|]. rewrite Hloc. split; reflexivity. }
-  destruct (expr_correct O stale (false, false) C W eq_refl HW n _ _ _ _ _ _ H ce 0 0 [] Hrel
+  destruct (expr_correct O stale (false, false) C W HW n _ _ _ _ _ _ H ce 0 0 [] Hrel
               nk na (csize pre) _ s0 Hs eq_refl Ha Hk Hm) as [k1 S1].
   assert (S2 : steps O C 1 (St 0 (csize pre + csize (f_code (cexpr ce e nk na))) 0 []
                                ([v] ++ rev (map snd (w_globals W))) s0)
@@ -1127,3 +1355,682 @@ Proof.
 Qed.
 
 End Closed.
+
+(* ------------------------------------------------------------------ *)
+(* whole programs: the compiler state as a prefix of the final one *)
+Section Prefix.
+Context {Q : Type}.
+
+Definition pre (a b : @cstate Q) : Prop :=
+  (exists r, s_consts b = s_consts a ++ r) /\
+  (exists r, s_main b = s_main a ++ r) /\
+  (exists r, s_fns b = s_fns a ++ r) /\
+  (exists r, c_ffi (s_env b) = c_ffi (s_env a) ++ r) /\
+  (exists r, c_structs (s_env b) = c_structs (s_env a) ++ r).
+
+Lemma pre_refl : forall a, pre a a.
+Proof. intro a. repeat split; exists []; rewrite app_nil_r; reflexivity. Qed.
+
+Lemma pre_trans : forall a b c, pre a b -> pre b c -> pre a c.
+Proof.
+  intros a b c (A1 & A2 & A3 & A4 & A5) (B1 & B2 & B3 & B4 & B5).
+  repeat split.
+  - destruct A1 as [r1 E1], B1 as [r2 E2]. exists (r1 ++ r2). rewrite E2, E1, app_assoc. reflexivity.
+  - destruct A2 as [r1 E1], B2 as [r2 E2]. exists (r1 ++ r2). rewrite E2, E1, app_assoc. reflexivity.
+  - destruct A3 as [r1 E1], B3 as [r2 E2]. exists (r1 ++ r2). rewrite E2, E1, app_assoc. reflexivity.
+  - destruct A4 as [r1 E1], B4 as [r2 E2]. exists (r1 ++ r2). rewrite E2, E1, app_assoc. reflexivity.
+  - destruct A5 as [r1 E1], B5 as [r2 E2]. exists (r1 ++ r2). rewrite E2, E1, app_assoc. reflexivity.
+Qed.
+
+Lemma add_key_pre : forall x l, exists r, add_key x l = l ++ r.
+Proof.
+  intros. unfold add_key. destruct (index_of x l); [exists []; rewrite app_nil_r | exists [x]]; reflexivity.
+Qed.
+
+Lemma add_struct_pre : forall n fs l, exists r, add_struct n fs l = l ++ r.
+Proof.
+  intros. unfold add_struct. destruct (index_of n (map fst l)); [exists []; rewrite app_nil_r | exists [(n, fs)]]; reflexivity.
+Qed.
+
+Lemma cstmt_pre : forall (s : stmt Q) st, pre st (cstmt s st).
+Proof.
+  intros s st. unfold pre. destruct s; simpl.
+  - repeat split; try (exists []; rewrite app_nil_r; reflexivity); eexists; reflexivity.
+  - repeat split; try (exists []; rewrite app_nil_r; reflexivity); eexists; reflexivity.
+  - repeat split; try (exists []; rewrite app_nil_r; reflexivity); eexists; reflexivity.
+  - repeat split; try (exists []; rewrite app_nil_r; reflexivity). apply add_key_pre.
+  - repeat split; try (exists []; rewrite app_nil_r; reflexivity). apply add_struct_pre.
+  - destruct (index_of name (c_ffi (s_env st))); simpl;
+      repeat split; try (exists []; rewrite app_nil_r; reflexivity); eexists; reflexivity.
+Qed.
+
+Lemma cstmts_pre : forall (p : program Q) st, pre st (cstmts p st).
+Proof.
+  induction p as [|s p IH]; intro st; simpl.
+  - apply pre_refl.
+  - eapply pre_trans; [apply cstmt_pre | apply IH].
+Qed.
+
+Lemma cstmts_cons : forall (s : stmt Q) p st, cstmts (s :: p) st = cstmts p (cstmt s st).
+Proof. reflexivity. Qed.
+
+End Prefix.
+
+(* ------------------------------------------------------------------ *)
+(* list facts for the statement level *)
+Lemma firstn_app_le {A} : forall n (l l' : list A), n <= length l -> firstn n (l ++ l') = firstn n l.
+Proof.
+  intros. rewrite firstn_app. replace (n - length l) with 0 by lia. simpl. apply app_nil_r.
+Qed.
+
+Lemma fn_lookup_snoc : forall x l f b,
+  fn_lookup x (l ++ [(f, b)]) = if String.eqb f x then Some b else fn_lookup x l.
+Proof.
+  induction l as [|[y c] l IH]; intros f b; simpl.
+  - destruct (String.eqb f x); reflexivity.
+  - rewrite IH. destruct (String.eqb f x); reflexivity.
+Qed.
+
+Lemma find_last_snoc {A} : forall x (l : list (string * A)) f a,
+  find_last x (l ++ [(f, a)]) = if String.eqb f x then Some (length l, a) else find_last x l.
+Proof.
+  induction l as [|[y c] l IH]; intros f a; simpl.
+  - destruct (String.eqb f x); reflexivity.
+  - rewrite IH. destruct (String.eqb f x); reflexivity.
+Qed.
+
+Lemma mem_app : forall x a b, mem x (a ++ b) = (mem x a || mem x b)%bool.
+Proof. intros. unfold mem. apply existsb_app. Qed.
+
+Lemma index_of_mem : forall x l,
+  match index_of x l with Some _ => mem x l = true | None => mem x l = false end.
+Proof.
+  induction l as [|y l IH]; simpl; [reflexivity|].
+  rewrite (String.eqb_sym x y). destruct (String.eqb y x); simpl; [reflexivity|].
+  destruct (index_of x l); exact IH.
+Qed.
+
+
+(* ------------------------------------------------------------------ *)
+Section Top.
+Context {Q : Type}.
+Variable O : ops Q.
+Variable stale : string -> nat -> bool.
+Variable lits : bool * bool.
+Variable fin : @cstate Q.
+Notation C := (finish fin).
+Hypothesis Hok : compile_ok (finish fin) = true.
+Hypothesis Hstale : forall name idx,
+  stale name idx = false -> rposition name (chunk_names (finish fin)) = Some idx.
+
+Definition wext (W W' : @world Q) : Prop :=
+  (exists r, w_globals W' = w_globals W ++ r) /\
+  (exists r, w_fns W' = w_fns W ++ r) /\
+  (exists r, w_foreign W' = w_foreign W ++ r) /\
+  (exists r, w_structs W' = w_structs W ++ r).
+
+Lemma cenv_rel_grow : forall W W' ce vg vn vf,
+  cenv_rel O C W ce vg vn vf ->
+  vg <= length (w_globals W) -> vn <= length (w_fns W) -> vf <= length (w_foreign W) ->
+  wext W W' -> cenv_rel O C W' ce vg vn vf.
+Proof.
+  intros W W' ce vg vn vf (H1 & H2 & H3 & H4 & H5 & H6 & H7) Lg Ln Lf ([g Eg] & [f Ef] & [o Eo] & [s Es]).
+  unfold cenv_rel. rewrite Eg, Ef, Eo, Es. rewrite !firstn_app_le by assumption.
+  refine (conj H1 (conj H2 (conj H3 (conj H4 (conj H5 (conj H6 _)))))).
+  destruct H7 as [r E]. exists (r ++ s). rewrite E, app_assoc. reflexivity.
+Qed.
+
+Definition fun_ok (W : @world Q) (i : nat) (name : string) (fd : @fdef Q) : Prop :=
+  (exists ce nk na,
+     nth_error (p_chunks C) (S i)
+       = Some (name, f_code (cfun ce (fd_params fd) (fd_locals fd) (fd_body fd) nk na)) /\
+     consts_at C nk (f_consts (cfun ce (fd_params fd) (fd_locals fd) (fd_body fd) nk na)) /\
+     nomark (f_code (cfun ce (fd_params fd) (fd_locals fd) (fd_body fd) nk na)) /\
+     cenv_rel O C W ce (fd_nglob fd) (S i) (fd_nforeign fd)) /\
+  fd_nglob fd <= length (w_globals W) /\ fd_nforeign fd <= length (w_foreign W).
+
+Definition funs_inv (W : @world Q) : Prop :=
+  forall i name fd, nth_error (w_fns W) i = Some (name, fd) -> fun_ok W i name fd.
+
+Lemma fun_ok_grow : forall W W' i name fd,
+  fun_ok W i name fd -> nth_error (w_fns W) i = Some (name, fd) -> wext W W' -> fun_ok W' i name fd.
+Proof.
+  intros W W' i name fd [(ce & nk & na & A & B & D & E) [Lg Lf]] Hi Hext.
+  assert (Li : S i <= length (w_fns W)) by (apply nth_error_Some; congruence).
+  pose proof Hext as ([g Eg] & _ & [o Eo] & _).
+  split; [|split].
+  - exists ce, nk, na. refine (conj A (conj B (conj D _))).
+    eapply cenv_rel_grow; eassumption.
+  - rewrite Eg, app_length. lia.
+  - rewrite Eo, app_length. lia.
+Qed.
+
+Definition Inv (st : @cstate Q) (rst : @rstate Q) (ms : @mstate Q) : Prop :=
+  pre st fin /\
+  cenv_rel O C (r_world rst) (s_env st) (length (w_globals (r_world rst)))
+           (length (w_fns (r_world rst))) (length (w_foreign (r_world rst))) /\
+  c_locals (s_env st) = None /\
+  w_structs (r_world rst) = c_structs (s_env st) /\
+  funs_inv (r_world rst) /\
+  length (s_fns st) = length (w_fns (r_world rst)) /\
+  ms = {| m_frames := [F 0 (csize (s_main st)) 0];
+          m_stack := rev (map snd (w_globals (r_world rst)));
+          m_last := w_last (r_world rst); m_out := r_out rst; m_res := r_res rst |}.
+
+Lemma Inv_RelW : forall st rst ms, Inv st rst ms -> RelW O stale C (r_world rst).
+Proof.
+  intros st rst ms (Hpre & Hrel & _ & _ & Hf & _). split; [|split].
+  - intros i name fd Hi. destruct (Hf i name fd Hi) as [H _]. exact H.
+  - intros x Hx. destruct Hrel as (_ & _ & _ & [rest Effi] & Hmem & _).
+    specialize (Hmem x). rewrite firstn_all in Hmem.
+    destruct (index_of x (c_ffi (s_env st))) as [i|] eqn:E; [|congruence].
+    simpl in Effi |- *. rewrite Effi. rewrite (index_of_app _ _ rest _ E). discriminate.
+  - exact Hstale.
+Qed.
+
+(* facts about the final chunks *)
+Lemma main_chunk : nth_error (p_chunks C) 0 = Some ("<main>"%string, s_main fin).
+Proof. reflexivity. Qed.
+
+Lemma main_at : forall m code tail r, s_main fin = (m ++ code ++ tail) ++ r -> at_code C 0 (csize m) code.
+Proof.
+  intros m code tail r E. exists "<main>"%string, m, (tail ++ r). split; [|reflexivity].
+  rewrite main_chunk. rewrite E. rewrite <- !app_assoc. reflexivity.
+Qed.
+
+Lemma consts_pre_at : forall k ks r, s_consts fin = (k ++ ks) ++ r -> consts_at C (length k) ks.
+Proof.
+  intros k ks r E. exists k, r. split; [|reflexivity]. simpl. rewrite E, <- app_assoc. reflexivity.
+Qed.
+
+Lemma main_nomark : forall m code r, s_main fin = (m ++ code) ++ r -> nomark code.
+Proof.
+  intros m code r E. unfold compile_ok in Hok. simpl in Hok.
+  apply andb_prop in Hok. destruct Hok as [H _]. apply andb_prop in H. destruct H as [H _].
+  unfold chunk_ok in H. apply andb_prop in H. destruct H as [H _].
+  rewrite E in H. apply forallb_app_inv in H. destruct H as [H _].
+  apply forallb_app_inv in H. destruct H as [_ H]. exact H.
+Qed.
+
+Lemma fn_chunk_nomark : forall a name code r, s_fns fin = (a ++ [(name, code)]) ++ r -> nomark code.
+Proof.
+  intros a name code r E. unfold compile_ok in Hok. simpl in Hok.
+  apply andb_prop in Hok. destruct Hok as [H _]. apply andb_prop in H. destruct H as [_ H].
+  rewrite E in H. apply forallb_app_inv in H. destruct H as [H _].
+  apply forallb_app_inv in H. destruct H as [_ H]. simpl in H.
+  apply andb_prop in H. destruct H as [H _]. unfold chunk_ok in H.
+  apply andb_prop in H. destruct H as [H _]. exact H.
+Qed.
+
+(* evaluating a top-level expression *)
+Lemma top_expr : forall st rst ms n e v tail r1 r2,
+  Inv st rst ms ->
+  top_eval O stale lits n (r_world rst) e = Ok v ->
+  s_main fin = (s_main st ++ f_code (cexpr (s_env st) e (length (s_consts st)) (s_na st)) ++ tail) ++ r1 ->
+  s_consts fin = (s_consts st ++ f_consts (cexpr (s_env st) e (length (s_consts st)) (s_na st))) ++ r2 ->
+  exists k, steps O C k ms
+            = Some (St 0 (csize (s_main st) + csize (f_code (cexpr (s_env st) e (length (s_consts st)) (s_na st))))
+                       0 [] ([v] ++ rev (map snd (w_globals (r_world rst)))) ms).
+Proof.
+  intros st rst ms n e v tail r1 r2 HI H Em Ek.
+  pose proof (Inv_RelW _ _ _ HI) as HW.
+  destruct HI as (Hpre & Hrel & Hloc & _ & _ & _ & Ems).
+  assert (Hs : stack_ok (r_world rst) (s_env st) [] 0 (rev (map snd (w_globals (r_world rst))))).
+  { split; [exists []; reflexivity|]. rewrite Hloc. split; reflexivity. }
+  assert (Hm : nomark (f_code (cexpr (s_env st) e (length (s_consts st)) (s_na st)))).
+  { rewrite app_assoc in Em. rewrite <- app_assoc in Em.
+    eapply (main_nomark (s_main st) _ (tail ++ r1)).
+    rewrite Em. rewrite <- !app_assoc. reflexivity. }
+  unfold top_eval in H.
+  destruct (expr_correct O stale lits C (r_world rst) HW n _ _ _ _ _ _ H (s_env st) 0 0 [] Hrel
+              _ _ (csize (s_main st)) _ ms Hs (eq_trans (f_equal (@m_last Q) Ems) eq_refl)
+              (main_at _ _ _ _ Em) (consts_pre_at _ _ _ Ek) Hm) as [k S1].
+  exists k. rewrite <- S1. f_equal. rewrite Ems. reflexivity.
+Qed.
+
+
+Lemma wext_refl : forall W, wext W W.
+Proof. intro W. repeat split; exists []; rewrite app_nil_r; reflexivity. Qed.
+
+Lemma funs_inv_grow_same : forall W W',
+  funs_inv W -> wext W W' -> w_fns W' = w_fns W -> funs_inv W'.
+Proof.
+  intros W W' Hf Hext E i name fd Hi. rewrite E in Hi.
+  eapply fun_ok_grow; [apply Hf| |]; eassumption.
+Qed.
+
+Lemma step_expr : forall n e st rst rst' ms,
+  Inv st rst ms -> pre (cstmt (SExpr e) st) fin ->
+  exec_stmt O stale lits n (SExpr e) rst = Ok rst' ->
+  exists k ms', steps O C k ms = Some ms' /\ Inv (cstmt (SExpr e) st) rst' ms'.
+Proof.
+  intros n e st rst rst' ms HI Hpre H. simpl in H.
+  apply bind_ok in H. destruct H as (v & Hv & H). inversion H; subst rst'; clear H.
+  pose proof Hpre as ([r2 Ek] & [r1 Em] & _). simpl in Ek, Em.
+  destruct (top_expr st rst ms n e v [IReturn] r1 r2 HI Hv Em Ek) as [k1 S1].
+  set (fr := cexpr (s_env st) e (length (s_consts st)) (s_na st)) in *.
+  pose proof (main_at _ _ _ _ Em) as Ha.
+  assert (Har : at_code C 0 (csize (s_main st) + csize (f_code fr)) [IReturn]).
+  { exists "<main>"%string, (s_main st ++ f_code fr), r1. split.
+    - rewrite main_chunk, Em. rewrite <- !app_assoc. reflexivity.
+    - apply csize_app. }
+  destruct HI as (Hp & Hrel & Hloc & Hst & Hf & Hlen & Ems).
+  eexists (k1 + 1), _. split.
+  - eapply steps_trans; [exact S1|]. eapply run_one; [exact Har|]. reflexivity.
+  - refine (conj Hpre (conj Hrel (conj Hloc (conj Hst (conj Hf (conj Hlen _)))))).
+    simpl. rewrite Ems. simpl. rewrite !csize_app. simpl. rewrite Nat.add_assoc. reflexivity.
+Qed.
+
+Lemma firstn_snoc_all {A} : forall (l : list A) a, firstn (length l + 1) (l ++ [a]) = l ++ [a].
+Proof. intros. rewrite <- (firstn_all (l ++ [a])) at 2. rewrite app_length. reflexivity. Qed.
+
+Lemma step_let : forall n x e st rst rst' ms,
+  Inv st rst ms -> pre (cstmt (SLet x e) st) fin ->
+  exec_stmt O stale lits n (SLet x e) rst = Ok rst' ->
+  exists k ms', steps O C k ms = Some ms' /\ Inv (cstmt (SLet x e) st) rst' ms'.
+Proof.
+  intros n x e st rst rst' ms HI Hpre H. simpl in H.
+  apply bind_ok in H. destruct H as (v & Hv & H). inversion H; subst rst'; clear H.
+  pose proof Hpre as ([r2 Ek] & [r1 Em] & _). simpl in Ek, Em.
+  destruct (top_expr st rst ms n e v [] r1 r2 HI Hv Em Ek) as [k1 S1].
+  set (fr := cexpr (s_env st) e (length (s_consts st)) (s_na st)) in *.
+  destruct HI as (Hp & Hrel & Hloc & Hst & Hf & Hlen & Ems).
+  set (W := r_world rst) in *.
+  assert (Hext : wext W {| w_globals := w_globals W ++ [(x, v)]; w_fns := w_fns W;
+                           w_foreign := w_foreign W; w_structs := w_structs W; w_last := w_last W |}).
+  { repeat split; simpl; try (exists []; rewrite app_nil_r; reflexivity). exists [(x, v)]. reflexivity. }
+  eexists k1, _. split; [exact S1|].
+  refine (conj Hpre (conj _ (conj Hloc (conj Hst (conj _ (conj Hlen _)))))).
+  - destruct Hrel as (H1 & H2 & H3 & H4 & H5 & H6 & H7).
+    unfold cenv_rel. simpl. rewrite app_length. simpl.
+    refine (conj _ (conj H2 (conj H3 (conj H4 (conj H5 (conj H6 H7)))))).
+    rewrite firstn_snoc_all. rewrite map_app. simpl. rewrite H1. rewrite firstn_all. reflexivity.
+  - simpl. eapply funs_inv_grow_same; [exact Hf | exact Hext | reflexivity].
+  - simpl. rewrite Ems. unfold St, mk. simpl. rewrite map_app, rev_app_distr. simpl.
+    rewrite app_nil_r, csize_app. reflexivity.
+Qed.
+
+
+Lemma step_fn : forall n f params wl body st rst rst' ms,
+  Inv st rst ms -> pre (cstmt (SFn f params wl body) st) fin ->
+  exec_stmt O stale lits n (SFn f params wl body) rst = Ok rst' ->
+  exists k ms', steps O C k ms = Some ms' /\ Inv (cstmt (SFn f params wl body) st) rst' ms'.
+Proof.
+  intros n f params wl body st rst rst' ms HI Hpre H. simpl in H. inversion H; subst rst'; clear H.
+  pose proof Hpre as ([r2 Ek] & _ & [r3 Ef] & _). simpl in Ek, Ef.
+  destruct HI as (Hp & Hrel & Hloc & Hst & Hf & Hlen & Ems).
+  set (W := r_world rst) in *.
+  set (fd := {| fd_params := params; fd_locals := wl; fd_body := body;
+                fd_nglob := length (w_globals W); fd_nforeign := length (w_foreign W) |}).
+  set (W' := {| w_globals := w_globals W; w_fns := w_fns W ++ [(f, fd)]; w_foreign := w_foreign W;
+                w_structs := w_structs W; w_last := w_last W |}).
+  set (ce' := {| c_globals := c_globals (s_env st); c_locals := None;
+                 c_functions := c_functions (s_env st) ++ [(f, false)];
+                 c_chunks := c_chunks (s_env st) ++ [f];
+                 c_ffi := c_ffi (s_env st); c_structs := c_structs (s_env st) |}) in *.
+  assert (Hext : wext W W').
+  { repeat split; simpl; try (exists []; rewrite app_nil_r; reflexivity). exists [(f, fd)]. reflexivity. }
+  assert (Hrel' : cenv_rel O C W' ce' (length (w_globals W)) (length (w_fns W) + 1) (length (w_foreign W))).
+  { destruct Hrel as (H1 & H2 & H3 & H4 & H5 & H6 & H7).
+    unfold cenv_rel. simpl.
+    refine (conj H1 (conj _ (conj _ (conj H4 (conj H5 (conj H6 H7)))))).
+    - rewrite firstn_snoc_all, map_app. rewrite H2, firstn_all. reflexivity.
+    - intro x. rewrite fn_lookup_snoc, firstn_snoc_all, find_last_snoc.
+      specialize (H3 x). rewrite !firstn_all in H3. rewrite ?firstn_all.
+      destruct (String.eqb f x); [discriminate | exact H3]. }
+  eexists 0, _. split; [reflexivity|].
+  refine (conj Hpre (conj _ (conj eq_refl (conj Hst (conj _ (conj _ Ems)))))).
+  - simpl. rewrite app_length. simpl. exact Hrel'.
+  - intros i name fd0 Hi. simpl in Hi.
+    destruct (Nat.lt_ge_cases i (length (w_fns W))) as [Lt|Ge].
+    + rewrite nth_error_app1 in Hi by assumption.
+      eapply fun_ok_grow; [apply Hf; exact Hi | exact Hi | exact Hext].
+    + assert (Ei : i = length (w_fns W)).
+      { assert (i < length (w_fns W ++ [(f, fd)])) by (apply nth_error_Some; congruence).
+        rewrite app_length in H. simpl in H. lia. }
+      subst i. rewrite nth_error_app2, Nat.sub_diag in Hi by lia. simpl in Hi.
+      inversion Hi; subst name fd0.
+      split; [|split; simpl; lia].
+      exists ce', (length (s_consts st)), (s_na st). simpl fd_params. simpl fd_locals. simpl fd_body.
+      refine (conj _ (conj _ (conj _ _))).
+      * simpl. rewrite Ef. rewrite <- Hlen.
+        rewrite <- app_assoc. rewrite nth_error_app2, Nat.sub_diag by lia. reflexivity.
+      * eapply consts_pre_at. exact Ek.
+      * eapply fn_chunk_nomark. exact Ef.
+      * simpl. rewrite <- Nat.add_1_r. exact Hrel'.
+  - simpl. rewrite !app_length. simpl. lia.
+Qed.
+
+
+Lemma match_index_mem : forall x l (b : bool), mem x l = b ->
+  match index_of x l with Some _ => b = true | None => b = false end.
+Proof.
+  intros x l b E. pose proof (index_of_mem x l) as H. destruct (index_of x l); congruence.
+Qed.
+
+Lemma mem_add_key : forall x f l, mem x (add_key f l) = (mem x l || String.eqb x f)%bool.
+Proof.
+  intros. unfold add_key. pose proof (index_of_mem f l) as H.
+  destruct (index_of f l).
+  - destruct (String.eqb x f) eqn:E.
+    + apply String.eqb_eq in E. subst. rewrite H. reflexivity.
+    + rewrite orb_false_r. reflexivity.
+  - rewrite mem_app. simpl. rewrite orb_false_r. reflexivity.
+Qed.
+
+Lemma step_foreign : forall n f st rst rst' ms,
+  Inv st rst ms -> pre (cstmt (SForeign f) st) fin ->
+  exec_stmt O stale lits n (SForeign f) rst = Ok rst' ->
+  exists k ms', steps O C k ms = Some ms' /\ Inv (cstmt (SForeign f) st) rst' ms'.
+Proof.
+  intros n f st rst rst' ms HI Hpre H. simpl in H. inversion H; subst rst'; clear H.
+  pose proof Hpre as (_ & _ & _ & [r4 Effi] & _). simpl in Effi.
+  destruct HI as (Hp & Hrel & Hloc & Hst & Hf & Hlen & Ems).
+  set (W := r_world rst) in *.
+  set (W' := {| w_globals := w_globals W; w_fns := w_fns W; w_foreign := w_foreign W ++ [f];
+                w_structs := w_structs W; w_last := w_last W |}).
+  assert (Hext : wext W W').
+  { repeat split; simpl; try (exists []; rewrite app_nil_r; reflexivity). exists [f]. reflexivity. }
+  eexists 0, _. split; [reflexivity|].
+  refine (conj Hpre (conj _ (conj eq_refl (conj Hst (conj _ (conj Hlen Ems)))))).
+  - destruct Hrel as (H1 & H2 & H3 & H4 & H5 & H6 & H7).
+    unfold cenv_rel. simpl. rewrite app_length. simpl.
+    refine (conj H1 (conj H2 (conj _ (conj _ (conj _ (conj H6 H7)))))).
+    + intro x. rewrite fn_lookup_snoc, firstn_snoc_all, mem_app. simpl. rewrite orb_false_r.
+      specialize (H3 x). rewrite (firstn_all (w_foreign W)) in H3.
+      rewrite (String.eqb_sym x f).
+      destruct (String.eqb f x).
+      * apply orb_true_r.
+      * rewrite orb_false_r. exact H3.
+    + exists r4. exact Effi.
+    + intro x. apply match_index_mem.
+      rewrite mem_add_key, firstn_snoc_all, !mem_app. simpl. rewrite orb_false_r.
+      specialize (H5 x). rewrite (firstn_all (w_foreign W)) in H5. rewrite mem_app in H5.
+      pose proof (index_of_mem x (c_ffi (s_env st))) as M.
+      destruct (index_of x (c_ffi (s_env st))); rewrite M, <- H5; rewrite orb_assoc; reflexivity.
+  - simpl. eapply funs_inv_grow_same; [exact Hf | exact Hext | reflexivity].
+Qed.
+
+Lemma step_struct : forall n sn fs st rst rst' ms,
+  Inv st rst ms -> pre (cstmt (SStruct sn fs) st) fin ->
+  exec_stmt O stale lits n (SStruct sn fs) rst = Ok rst' ->
+  exists k ms', steps O C k ms = Some ms' /\ Inv (cstmt (SStruct sn fs) st) rst' ms'.
+Proof.
+  intros n sn fs st rst rst' ms HI Hpre H. simpl in H. inversion H; subst rst'; clear H.
+  pose proof Hpre as (_ & _ & _ & _ & [r5 Est]). simpl in Est.
+  destruct HI as (Hp & Hrel & Hloc & Hst & Hf & Hlen & Ems).
+  set (W := r_world rst) in *.
+  assert (Hst' : match assoc sn (w_structs W) with
+                 | Some _ => w_structs W
+                 | None => w_structs W ++ [(sn, fs)]
+                 end = add_struct sn fs (c_structs (s_env st))).
+  { unfold add_struct. rewrite Hst.
+    pose proof (index_of_assoc_fst sn (c_structs (s_env st))) as A.
+    destruct (index_of sn (map fst (c_structs (s_env st)))); destruct (assoc sn (c_structs (s_env st)));
+      try contradiction; reflexivity. }
+  assert (Hext : wext W {| w_globals := w_globals W; w_fns := w_fns W; w_foreign := w_foreign W;
+                           w_structs := match assoc sn (w_structs W) with
+                                        | Some _ => w_structs W
+                                        | None => w_structs W ++ [(sn, fs)]
+                                        end; w_last := w_last W |}).
+  { repeat split; simpl; try (exists []; rewrite app_nil_r; reflexivity).
+    destruct (assoc sn (w_structs W)); [exists []; rewrite app_nil_r | exists [(sn, fs)]]; reflexivity. }
+  eexists 0, _. split; [reflexivity|].
+  refine (conj Hpre (conj _ (conj eq_refl (conj Hst' (conj _ (conj Hlen Ems)))))).
+  - destruct Hrel as (H1 & H2 & H3 & H4 & H5 & H6 & H7).
+    unfold cenv_rel. simpl.
+    refine (conj H1 (conj H2 (conj H3 (conj H4 (conj H5 (conj _ _)))))).
+    + exists r5. exact Est.
+    + exists []. rewrite app_nil_r. exact Hst'.
+  - simpl. eapply funs_inv_grow_same; [exact Hf | exact Hext | reflexivity].
+Qed.
+
+Lemma step_proc : forall n name args st rst rst' ms,
+  Inv st rst ms -> pre (cstmt (SProc name args) st) fin ->
+  exec_stmt O stale lits n (SProc name args) rst = Ok rst' ->
+  exists k ms', steps O C k ms = Some ms' /\ Inv (cstmt (SProc name args) st) rst' ms'.
+Proof.
+  intros n name args st rst rst' ms HI Hpre H. simpl in H.
+  apply bind_ok in H. destruct H as (vs & Hvs & H). apply bind_ok in H. destruct H as (lines & Hp & H).
+  inversion H; subst rst'; clear H.
+  pose proof (Inv_RelW _ _ _ HI) as HW.
+  destruct HI as (Hp0 & Hrel & Hloc & Hst & Hf & Hlen & Ems).
+  set (W := r_world rst) in *.
+  set (fargs := cseq (map (fun a => cexpr (s_env st) a) args) (length (s_consts st)) (s_na st)) in *.
+  pose proof (evals_length _ _ _ Hvs) as Hl.
+  pose proof (ok_args O stale lits C W n (expr_correct O stale lits C W HW n) _ _ _ [] args vs
+                (s_env st) 0 0 [] Hvs Hrel) as Hargs.
+  assert (Hs : stack_ok W (s_env st) [] 0 (rev (map snd (w_globals W)))).
+  { split; [exists []; reflexivity|]. rewrite Hloc. split; reflexivity. }
+  destruct Hrel as (H1 & H2 & H3 & [rest H4] & H5 & H6 & H7).
+  unfold cstmt in Hpre |- *. fold fargs in Hpre |- *.
+  destruct (index_of name (c_ffi (s_env st))) as [idx|] eqn:Ei.
+  - pose proof Hpre as ([r2 Ek] & [r1 Em] & _). simpl in Ek, Em.
+    assert (Hm : nomark (f_code fargs ++ [chk16 (length args) (IFFICallProcedure idx (length args) (f_na fargs))])).
+    { eapply (main_nomark (s_main st) _ r1). rewrite Em. rewrite app_nil_r. reflexivity. }
+    apply nomark_app in Hm. destruct Hm as [Hm1 Hm2]. apply nomark_one in Hm2. destruct Hm2 as [Hm2 _].
+    apply chk16_ok in Hm2. destruct Hm2 as [Hm2 _]. rewrite Hm2 in Em.
+    rewrite app_nil_r in Em.
+    destruct (Hargs (length (s_consts st)) (s_na st) (csize (s_main st)) _ ms Hs
+                (eq_trans (f_equal (@m_last Q) Ems) eq_refl)
+                (main_at _ _ _ _ Em) (consts_pre_at _ _ _ Ek) Hm1) as [k1 S1].
+    fold fargs in S1.
+    assert (Har : at_code C 0 (csize (s_main st) + csize (f_code fargs))
+                    [IFFICallProcedure idx (length args) (f_na fargs)]).
+    { exists "<main>"%string, (s_main st ++ f_code fargs), r1. split.
+      - rewrite main_chunk, Em. rewrite <- !app_assoc. reflexivity.
+      - apply csize_app. }
+    eexists (k1 + 1), _. split.
+    + rewrite Ems in S1 |- *. eapply steps_trans; [exact S1|]. eapply run_one; [exact Har|].
+      simpl. simpl in H4. rewrite H4. rewrite (nth_error_app_l _ _ _ _ (index_of_nth _ _ _ Ei)).
+      rewrite <- Hl. rewrite pop_n_rev. rewrite Hp. reflexivity.
+    + refine (conj Hpre (conj _ (conj Hloc (conj Hst (conj Hf (conj Hlen _)))))).
+      * unfold cenv_rel. exact (conj H1 (conj H2 (conj H3 (conj (ex_intro _ rest H4) (conj H5 (conj H6 H7)))))).
+      * simpl. rewrite Hm2. rewrite ?app_nil_r. rewrite !csize_app. simpl.
+        rewrite ?Nat.add_assoc. reflexivity.
+  - (* compile-time panic marker: excluded by compile_ok *)
+    exfalso. pose proof Hpre as (_ & [r1 Em] & _). simpl in Em.
+    assert (Hm : nomark ((f_code fargs ++ [ICompilePanic]) ++ [])).
+    { eapply (main_nomark (s_main st) _ r1). exact Em. }
+    rewrite app_nil_r in Hm. apply nomark_app in Hm. destruct Hm as [_ Hm]. discriminate.
+Qed.
+
+
+Lemma stmt_step : forall n s st rst rst' ms,
+  Inv st rst ms -> pre (cstmt s st) fin ->
+  exec_stmt O stale lits n s rst = Ok rst' ->
+  exists k ms', steps O C k ms = Some ms' /\ Inv (cstmt s st) rst' ms'.
+Proof.
+  intros n s. destruct s; intros.
+  - eapply step_expr; eassumption.
+  - eapply step_let; eassumption.
+  - eapply step_fn; eassumption.
+  - eapply step_foreign; eassumption.
+  - eapply step_struct; eassumption.
+  - eapply step_proc; eassumption.
+Qed.
+
+Lemma stmts_run : forall n p st rst rst' ms,
+  Inv st rst ms -> cstmts p st = fin ->
+  exec_stmts O stale lits n p rst = Ok rst' ->
+  exists k ms', steps O C k ms = Some ms' /\ Inv fin rst' ms'.
+Proof.
+  induction p as [|s p IH]; intros st rst rst' ms HI Efin H.
+  - simpl in *. inversion H; subst. exists 0, ms. split; [reflexivity | exact HI].
+  - simpl in H. apply bind_ok in H. destruct H as (rst1 & H1 & H2).
+    rewrite cstmts_cons in Efin.
+    assert (Hpre : pre (cstmt s st) fin) by (rewrite <- Efin; apply cstmts_pre).
+    destruct (stmt_step n s st rst rst1 ms HI Hpre H1) as (k1 & ms1 & S1 & HI1).
+    destruct (IH _ _ _ _ HI1 Efin H2) as (k2 & ms2 & S2 & HI2).
+    exists (k1 + k2), ms2. split; [eapply steps_trans; eassumption | exact HI2].
+Qed.
+
+End Top.
+
+(* ------------------------------------------------------------------ *)
+(* the program-level theorem *)
+Lemma fns_names_cstmts {Q} : forall (p : program Q) st,
+  map fst (s_fns (cstmts p st))
+  = map fst (s_fns st) ++ flat_map (fun s => match s with SFn f _ _ _ => [f] | _ => [] end) p.
+Proof.
+  induction p as [|s p IH]; intro st; simpl.
+  - rewrite app_nil_r. reflexivity.
+  - change (fold_left (fun st0 s0 => cstmt s0 st0) p (cstmt s st)) with (cstmts p (cstmt s st)).
+    rewrite IH. destruct s; simpl; try reflexivity.
+    + rewrite map_app. simpl. rewrite <- app_assoc. reflexivity.
+    + destruct (index_of name (c_ffi (s_env st))); reflexivity.
+Qed.
+
+Lemma chunk_names_compile {Q} : forall procs0 (p : program Q),
+  chunk_names (compile procs0 p) = fn_names p.
+Proof.
+  intros. unfold chunk_names, compile, finish, fn_names. simpl. f_equal.
+  rewrite fns_names_cstmts. reflexivity.
+Qed.
+
+Lemma stale_in_rposition {Q} : forall (p : program Q) x idx,
+  stale_in p x idx = false -> rposition x (fn_names p) = Some idx.
+Proof.
+  intros p x idx H. unfold stale_in, final_idx in H.
+  pose proof (rposition_find_last x (map (fun n => (n, tt)) (fn_names p))) as R.
+  assert (E0 : forall names, map fst (map (fun n : string => (n, tt)) names) = names).
+  { induction names; simpl; [reflexivity | f_equal; assumption]. }
+  rewrite E0 in R.
+  destruct (find_last x (map (fun n => (n, tt)) (fn_names p))) as [[i u]|]; [|discriminate].
+  destruct (rposition x (fn_names p)) as [j|]; [|contradiction]. destruct R as [E _]. subst j.
+  apply negb_false_iff in H. apply Nat.eqb_eq in H. subst. reflexivity.
+Qed.
+
+Theorem compile_correct_lits {Q} : forall (O : ops Q) lits (p : program Q) n out v,
+  compile_ok (compile (procs O) p) = true ->
+  RefSem.run O (stale_in p) lits n p = Ok (out, v) ->
+  exists m, Machine.run O (compile (procs O) p) m = Ok (out, v).
+Proof.
+  intros O lits p n out v Hok H. unfold RefSem.run in H.
+  apply bind_ok in H. destruct H as (rst' & Hrun & E). inversion E; subst out v; clear E.
+  set (fin := cstmts p (cinit (procs O))).
+  assert (Hst : forall name idx, stale_in p name idx = false ->
+                                 rposition name (chunk_names (finish fin)) = Some idx).
+  { intros name idx Hs. unfold fin. change (finish (cstmts p (cinit (procs O)))) with (compile (procs O) p).
+    rewrite chunk_names_compile. apply stale_in_rposition. exact Hs. }
+  assert (HI : Inv O fin (cinit (procs O)) rinit (minit (Q := Q))).
+  { refine (conj (cstmts_pre _ _) (conj _ (conj eq_refl (conj eq_refl (conj _ (conj eq_refl eq_refl)))))).
+    - unfold cenv_rel. simpl.
+      refine (conj eq_refl (conj eq_refl (conj _ (conj _ (conj _ (conj _ _)))))).
+      + intro x. split; reflexivity.
+      + destruct (cstmts_pre p (cinit (procs O))) as (_ & _ & _ & [r E] & _). exists r. exact E.
+      + intro x. rewrite app_nil_r. apply index_of_mem.
+      + destruct (cstmts_pre p (cinit (procs O))) as (_ & _ & _ & _ & [r E]). exists r. exact E.
+      + exists []. reflexivity.
+    - intros i name fd Hi. destruct i; discriminate. }
+  destruct (stmts_run O (stale_in p) lits fin Hok Hst n p _ _ _ _ HI eq_refl Hrun)
+    as (k & ms' & S & HI').
+  destruct HI' as (_ & _ & _ & _ & _ & _ & Ems).
+  exists (k + 1). unfold Machine.run. change (compile (procs O) p) with (finish fin).
+  rewrite (steps_run O (finish fin) k 1 _ _ S). subst ms'.
+  cbn [run_from]. rewrite (step_halt O (finish fin) _ _ _ _ _ _ _ _ _ _ (main_chunk fin)); [reflexivity | lia].
+Qed.
+
+(* the program-level theorem: the checked reference semantics (all constructs) *)
+Theorem compile_correct {Q} : forall (O : ops Q) (p : program Q) n out v,
+  compile_ok (compile (procs O) p) = true ->
+  run_checked O n p = Ok (out, v) ->
+  exists m, Machine.run O (compile (procs O) p) m = Ok (out, v).
+Proof. intros O p n out v. apply compile_correct_lits. Qed.
+
+Theorem no_panic_after_ok {Q} : forall (O : ops Q) (p : program Q) n out v,
+  compile_ok (compile (procs O) p) = true ->
+  run_checked O n p = Ok (out, v) ->
+  forall m, Machine.run O (compile (procs O) p) m = Fuel
+            \/ Machine.run O (compile (procs O) p) m = Ok (out, v).
+Proof.
+  intros O p n out v Hok H m. destruct (compile_correct O p n out v Hok H) as [m0 Hm0].
+  unfold Machine.run in *. eapply run_from_any. exact Hm0.
+Qed.
+
+(* ------------------------------------------------------------------ *)
+(* the clauses of the property, as instances of the simulation *)
+Section Clauses.
+Context {Q : Type}.
+Variable O : ops Q.
+Variable stale : string -> nat -> bool.
+Variable C : @compiled Q.
+Variable W : @world Q.
+Hypothesis HW : RelW O stale C W.
+
+(* list elements keep their source order *)
+Lemma list_order : forall n vg vn vf L es vs ce fi fp frs,
+  evals (eval O stale (true, true) n W vg vn vf L) es = Ok vs ->
+  cenv_rel O C W ce vg vn vf ->
+  comp_ok O C W ce L fi fp frs (cexpr ce (EList es)) [VList vs].
+Proof.
+  intros. eapply (expr_correct O stale (true, true) C W HW (S n)); [|eassumption].
+  simpl. rewrite H. reflexivity.
+Qed.
+
+(* call arguments are evaluated left to right and arrive in the callee's frame in
+   source order (first argument deepest) *)
+Lemma arg_order : forall n vg vn vf L args vs ce fi fp frs,
+  evals (eval O stale (true, true) n W vg vn vf L) args = Ok vs ->
+  cenv_rel O C W ce vg vn vf ->
+  comp_ok O C W ce L fi fp frs (cseq (map (fun a => cexpr ce a) args)) (rev vs).
+Proof.
+  intros. eapply ok_args; try eassumption. apply expr_correct. exact HW.
+Qed.
+
+(* string parts are joined in source order *)
+Lemma string_order : forall n vg vn vf L parts strs ce fi fp frs,
+  evals (fun p : string + (expr Q * option string) =>
+           match p with
+           | inl s => Ok s
+           | inr (a, None) => bind (eval O stale (true, true) n W vg vn vf L a) (fun v => Ok (to_str O v))
+           | inr (a, Some spec) => bind (eval O stale (true, true) n W vg vn vf L a) (fun v => fmt_spec O spec v)
+           end) parts = Ok strs ->
+  cenv_rel O C W ce vg vn vf ->
+  comp_ok O C W ce L fi fp frs (cexpr ce (EString parts)) [VStr (String.concat EmptyString strs)].
+Proof.
+  intros. eapply (expr_correct O stale (true, true) C W HW (S n)); [|eassumption].
+  simpl. rewrite H. reflexivity.
+Qed.
+
+(* every declared field of a struct literal receives the value of the source field of
+   that NAME, whatever the order in which the source lists the fields *)
+Lemma field_order : forall n vg vn vf L sname sfields fields fvs vals ce fi fp frs,
+  assoc sname (w_structs W) = Some sfields ->
+  nodupb sfields = true -> length fields = length sfields ->
+  evals (fun nf : string * expr Q =>
+           bind (eval O stale (true, true) n W vg vn vf L (snd nf)) (fun v => Ok (fst nf, v))) fields = Ok fvs ->
+  collect sfields fvs = Some vals ->
+  cenv_rel O C W ce vg vn vf ->
+  comp_ok O C W ce L fi fp frs (cexpr ce (EStruct sname sfields fields)) [VStruct sname sfields vals].
+Proof.
+  intros n vg vn vf L sname sfields fields fvs vals ce fi fp frs Ha Hn Hl Hf Hc Hrel.
+  eapply (expr_correct O stale (true, true) C W HW (S n)); [|eassumption].
+  simpl. rewrite Ha.
+  assert (E : list_eqb String.eqb sfields sfields = true).
+  { clear. induction sfields; simpl; [reflexivity | rewrite String.eqb_refl; assumption]. }
+  rewrite E, Hn, Hl, Nat.eqb_refl. simpl. rewrite Hf. simpl. rewrite Hc. reflexivity.
+Qed.
+
+(* every name refers to its innermost binding: the latest local (parameter or
+   where-local) of that name, else the latest global visible at the definition point *)
+Lemma innermost_local : forall vg vn vf L x i v ce fi fp frs,
+  find_last x L = Some (i, v) ->
+  cenv_rel O C W ce vg vn vf ->
+  comp_ok O C W ce L fi fp frs (cexpr ce (EIdent x)) [v].
+Proof.
+  intros. eapply (expr_correct O stale (true, true) C W HW 1); [|eassumption].
+  simpl. rewrite H. reflexivity.
+Qed.
+
+Lemma innermost_global : forall vg vn vf L x i v ce fi fp frs,
+  find_last x L = None ->
+  find_last x (firstn vg (w_globals W)) = Some (i, v) ->
+  cenv_rel O C W ce vg vn vf ->
+  comp_ok O C W ce L fi fp frs (cexpr ce (EIdent x)) [v].
+Proof.
+  intros. eapply (expr_correct O stale (true, true) C W HW 1); [|eassumption].
+  simpl. rewrite H, H0. reflexivity.
+Qed.
+
+End Clauses.
